@@ -16,7 +16,17 @@ EXTENDS State
 GFun(f, k)        == IF k \in DOMAIN f THEN f[k] ELSE Zero
 GAdd(f, k, x)     == [y \in DOMAIN f \cup {k} |-> IF y = k THEN GFun(f, k) ++ x ELSE f[y]]
 
-GhostInit(s) == [donated |-> << >>, c12drift |-> << >>, vest |-> << >>]
+\* share denoms whose mints are time-locked (x/amm MintPoolShareToAccount: oracle pools lock every mint for one hour)
+LockedShareDenoms(s) == {ShareDenom(s, p) : p \in {q \in Pools(s) : s.amm.pools[q].useOracle}}
+LockSeconds == 3600
+LiveLocks(sq, now)  == SelectSeq(sq, LAMBDA l : l.until > now)
+LockedSum(sq, now)  == SumSeqOf(LiveLocks(sq, now), LAMBDA l : l.amt)
+LockPairs(s) == UNION {{<<a, d>> : d \in DOMAIN s.commit.acct[a].committed \cap LockedShareDenoms(s)} : a \in CommitAccts(s)}
+
+\* the specification's own lock ledger starts from the recorded lock-ups of the first observed state
+GhostInit(s) == [donated |-> << >>, c12drift |-> << >>, vest |-> << >>,
+                 locks |-> [x \in LockPairs(s) |-> LiveLocks(Lockups(s, x[1], x[2]), s.chain.t)]]
+GLocks(g, a, d) == IF <<a, d>> \in DOMAIN g.locks THEN g.locks[<<a, d>>] ELSE << >>
 
 Don(g, a, d)      == GFun(g.donated, <<a, d>>)
 Drift12(g, d)     == GFun(g.c12drift, d)
